@@ -29,6 +29,11 @@ def std_filt(w, fid):
     if w.__dict__.get("ephemeral_filters"):
         # a NEW callable for every call, dropped right after it (inline lambdas / per-call closures): the memo must not
         # mistake it for an earlier, dead one (e.g. by its recycled address)
+        n = w.__dict__["_eph_n"] = w.__dict__.get("_eph_n", 0) + 1
+        if fid <= 2 and n % 2:
+            # every other one an UNHASHABLE callable object (a plain @dataclass with __call__) of the same meaning: it cannot be
+            # a memo key at all, and whatever stands in for it (its address ...) dies with it
+            return _UnhashableFilt(w, fid)
         return _std_filt(w, fid)
     return _memo(w, "filt", fid, lambda: _std_filt(w, fid))
 
